@@ -119,7 +119,7 @@ func i64(v int64) *int64 { return &v }
 
 func runC08(c *Ctx) {
 	r := c.R
-	r.SetRule("every bad upload kind (wrong / malformed / wrong-length / empty Content-MD5, declared length longer than the body, body reader failing after k bytes for every k in 0..len and around 32 KiB buffer boundaries, uploads above 64 MiB (aws-chunked with a wrong digest, with more payload than declared; Go PutObject with a reader longer than its size) on the backends that buffer bodies, key of 1024 vs 1025 bytes (PUT and multipart initiation), browser form uploads with a Content-MD5 field, metadata far above the limit, missing / negative / non-numeric Content-Length, aws-chunked with wrong decoded length or truncated stream, the same (plain and aws-chunked) for UploadPart, Go PutObject with size != length) x prior state (key absent, key present) x backend (all seven configurations) x integrity on/off, each framed by snapshots of GET, HEAD, the key's listing entry, the bucket listing and ListParts; distinct = (backend, integrity, prior state, upload kind, failure point)")
+	r.SetRule("every bad upload kind (wrong / malformed / wrong-length / empty Content-MD5, declared length longer than the body, body reader failing after k bytes for every k in 0..len and around 32 KiB buffer boundaries, uploads above 64 MiB (aws-chunked with a wrong digest, with more payload than declared; Go PutObject with a reader longer than its size) on the backends that buffer bodies, key of 1024 vs 1025 bytes (PUT and multipart initiation), browser form uploads with a Content-MD5 field, metadata far above the limit, missing / negative / non-numeric Content-Length, aws-chunked with wrong decoded length or truncated stream, the same (plain and aws-chunked) for UploadPart, Go PutObject with size != length) x prior state (key absent, key present) x backend (all seven configurations) x integrity on/off, each framed by snapshots of GET, HEAD, the key's listing entry, the bucket listing and ListParts; distinct = (backend, integrity, prior state, upload kind, failure point); uploads of every kind served on the file backends while the n-th file-system call of a class fails (ENOSPC/EIO through a wrapper around the afero file system): an upload that is not answered 2xx leaves every object and the listing as they were")
 	r.Exhaustive(true)
 	r.Set("exhaustive_scope", "failure point k = every byte offset 0..len of a 96-byte (quick) / 1024-byte (thorough) body and 12 offsets around the 32 KiB and 64 KiB boundaries of a 70000-byte body, for every backend x integrity setting x prior state x {PUT, UploadPart, Go PutObject}")
 	smallLen := r.Pick(96, 1024)
@@ -584,6 +584,9 @@ func runC08(c *Ctx) {
 		}
 	})
 	c08Huge(r)
+	if c.Only == "" {
+		runC08Faults(r)
+	}
 	r.Require("rejected_and_unchanged", 1000)
 	r.Require("accepted", 50)
 	r.Require("reader_failure_points", 500)
